@@ -143,7 +143,11 @@ def run(ctx):
         for _ in range(rng.randint(2, 5)):
             p, q = rng.randrange(norb // 2), rng.randrange(norb // 2); c = float(dy(rng) or 1.0)
             for sp in (0, 1):
-                terms[((2 * p + sp, 1), (2 * q + sp, 0))] = c; terms[((2 * q + sp, 1), (2 * p + sp, 0))] = c
+                # spin-asymmetric on odd rounds: different amplitudes for up (even modes) and down (odd modes)
+                cs = c if (i % 2 == 0 or sp == 0) else float(dy(rng) or 0.5)
+                terms[((2 * p + sp, 1), (2 * q + sp, 0))] = cs; terms[((2 * q + sp, 1), (2 * p + sp, 0))] = cs
+        if i % 2 == 1:
+            p = rng.randrange(norb // 2); terms[((2 * p, 1), (2 * p, 0))] = terms.get(((2 * p, 1), (2 * p, 0)), 0.0) + float(dy(rng) or 1.0)   # Zeeman-like
         p, q = rng.randrange(norb // 2), rng.randrange(norb // 2); u = float(dy(rng) or 1.0)
         terms[((2 * p, 1), (2 * p, 0), (2 * q + 1, 1), (2 * q + 1, 0))] = u
         H = of.normal_ordered(mk_fermion(of, terms))
@@ -159,7 +163,8 @@ def run(ctx):
             # operator must have exactly the spectrum of H on the states with N = ne (mod 2) and one spin-up parity,
             # namely the one of the documented ground sectors (n_up = ne/2 rounded up or down)
             ok = False
-            for pup in {(ne // 2) % 2, ((ne + 1) // 2) % 2}:
+            # the parity table of the implementation's docstring reference (arXiv:1704.05018) fixes n_up = ceil(ne / 2)
+            for pup in {((ne + 1) // 2) % 2}:
                 idx = [k for k in range(2 ** norb) if bin(k).count('1') % 2 == ne % 2 and
                        sum((k >> (norb - 1 - j)) & 1 for j in range(0, norb, 2)) % 2 == pup]
                 e_sec = np.sort(np.linalg.eigvalsh(Hm[np.ix_(idx, idx)]))
